@@ -135,6 +135,16 @@ func init() {
 				}
 			}
 		}
+		// equal adjusted exponents with the exponents more than 100000 apart: only a coefficient of 100000+ digits gets there
+		for _, dl := range []int64{0, 1} {
+			k := 100002
+			c := new(big.Int).Exp(big.NewInt(10), big.NewInt(int64(k)), nil)
+			c.Add(c, big.NewInt(dl))
+			x := finDec(false, big.NewInt(1), 50001)
+			y := finDec(false, c, -50001)
+			g.emit(mkO(x, y), "gap>100000")
+			g.emit(mkO(y, x), "gap>100000")
+		}
 		n := g.pick(60000, 1500000)
 		for i := 0; i < n; i++ {
 			p := g.R.between(1, 40)
